@@ -642,3 +642,381 @@ pub fn advanced_monotone_misbehaves(seq: &[(Point, bool)]) -> bool {
     let tol = 1e-4 * (1.0 + pa);
     (area(true) - pa).abs() <= tol && (area(false) - pa).abs() > tol
 }
+
+
+// ---------------------------------------------------------------------------------------------
+// Fills into caller-owned `VertexBuffers` of every index type lyon's `BuffersBuilder` accepts,
+// with prior contents (dummy geometry and/or earlier fills appended to the SAME buffers), with and
+// without a vertex offset / inverted winding, through `BuffersBuilder::new` or `simple_builder`,
+// with one builder object per fill or one builder object serving every fill. (C02 `chk_tilingbuf`,
+// `bufidx`.) Add-only: nothing above this line was changed.
+
+use lyon_tessellation::geometry_builder::{simple_builder, MaxIndex};
+
+/// run the fill through entry point `cfg.entry` against ANY geometry builder
+pub fn run_fill_dyn(tess: &mut FillTessellator, poly: &Poly, cfg: &FillCfg, out: &mut dyn FillGeometryBuilder) -> Result<(), lyon_tessellation::TessellationError> {
+    let opts = cfg.options();
+    let path = poly.to_path();
+    match cfg.entry {
+        0 => tess.tessellate(path.iter(), &opts, out),
+        1 => tess.tessellate_path(&path, &opts, out),
+        2 => tess.tessellate_with_ids(path.id_iter(), &path, None, &opts, out),
+        3 if poly.subs.len() == 1 && !poly.subs[0].0.is_empty() => {
+            let (pts, closed) = &poly.subs[0];
+            tess.tessellate_polygon(Polygon { points: &pts[..], closed: *closed }, &opts, out)
+        }
+        3 => tess.tessellate(path.iter(), &opts, out),
+        _ => {
+            use lyon_path::builder::PathBuilder;
+            let mut b = tess.builder(&opts, out);
+            for (pts, closed) in &poly.subs {
+                if pts.is_empty() {
+                    continue;
+                }
+                b.begin(pts[0]);
+                for p in &pts[1..] {
+                    b.line_to(*p);
+                }
+                b.end(*closed);
+            }
+            b.build()
+        }
+    }
+}
+
+/// `RefuseAt` over a trait object: refuses the `k`-th vertex since construction (0 = never)
+pub struct RefuseDyn<'a> {
+    pub inner: &'a mut dyn FillGeometryBuilder,
+    pub k: usize,
+    pub seen: usize,
+}
+impl<'a> GeometryBuilder for RefuseDyn<'a> {
+    fn begin_geometry(&mut self) {
+        self.inner.begin_geometry()
+    }
+    fn end_geometry(&mut self) {
+        self.inner.end_geometry()
+    }
+    fn add_triangle(&mut self, a: VertexId, b: VertexId, c: VertexId) {
+        self.inner.add_triangle(a, b, c)
+    }
+    fn abort_geometry(&mut self) {
+        self.inner.abort_geometry()
+    }
+}
+impl<'a> FillGeometryBuilder for RefuseDyn<'a> {
+    fn add_fill_vertex(&mut self, v: FillVertex) -> Result<VertexId, GeometryBuilderError> {
+        self.seen += 1;
+        if self.seen == self.k {
+            return Err(GeometryBuilderError::InvalidVertex);
+        }
+        self.inner.add_fill_vertex(v)
+    }
+}
+
+/// Never-refusing builder that records what the tessellator asks for, vertices named by ordinal
+/// (k-th vertex of this geometry = `VertexId(k)`): the request script of a fill.
+#[derive(Default)]
+pub struct ScriptRecorder {
+    pub positions: Vec<Point>,
+    /// `None` = vertex request, `Some((a, b, c))` = triangle over ordinals
+    pub script: Vec<Option<(u32, u32, u32)>>,
+    pub begins: usize,
+    pub ends: usize,
+    pub aborts: usize,
+}
+impl GeometryBuilder for ScriptRecorder {
+    fn begin_geometry(&mut self) {
+        self.begins += 1;
+    }
+    fn end_geometry(&mut self) {
+        self.ends += 1;
+    }
+    fn add_triangle(&mut self, a: VertexId, b: VertexId, c: VertexId) {
+        self.script.push(Some((a.0, b.0, c.0)));
+    }
+    fn abort_geometry(&mut self) {
+        self.aborts += 1;
+    }
+}
+impl FillGeometryBuilder for ScriptRecorder {
+    fn add_fill_vertex(&mut self, v: FillVertex) -> Result<VertexId, GeometryBuilderError> {
+        self.positions.push(v.position());
+        self.script.push(None);
+        Ok(VertexId(self.positions.len() as u32 - 1))
+    }
+}
+
+/// An index type `BuffersBuilder` can write (lyon implements `From<VertexId>` for exactly these).
+pub trait BufIdx: Copy + PartialEq + core::ops::Add + From<VertexId> + MaxIndex + 'static {
+    const NAME: &'static str;
+    /// the stored value read back as an integer
+    fn val(self) -> i128;
+    /// `simple_builder` exists for this type only when it is `u16`
+    fn simple(_b: &mut VertexBuffers<Point, Self>) -> Option<BuffersBuilder<'_, Point, Self, Positions>> {
+        None
+    }
+}
+impl BufIdx for u16 {
+    const NAME: &'static str = "u16";
+    fn val(self) -> i128 {
+        self as i128
+    }
+    fn simple(b: &mut VertexBuffers<Point, u16>) -> Option<BuffersBuilder<'_, Point, u16, Positions>> {
+        Some(simple_builder(b))
+    }
+}
+impl BufIdx for u32 {
+    const NAME: &'static str = "u32";
+    fn val(self) -> i128 {
+        self as i128
+    }
+}
+impl BufIdx for i32 {
+    const NAME: &'static str = "i32";
+    fn val(self) -> i128 {
+        self as i128
+    }
+}
+impl BufIdx for usize {
+    const NAME: &'static str = "usize";
+    fn val(self) -> i128 {
+        self as i128
+    }
+}
+
+pub const BUF_TYPES: [&str; 4] = ["u16", "u32", "i32", "usize"];
+
+/// how the `BuffersBuilder` over the buffers is obtained / decorated
+#[derive(Clone, Copy, Debug, PartialEq)]
+pub struct BuilderCfg {
+    /// `simple_builder(buffers)` instead of `BuffersBuilder::new(buffers, Positions)` (u16 only, no offset)
+    pub simple: bool,
+    /// `with_vertex_offset(offset)`
+    pub offset: u32,
+    /// `with_inverted_winding()`
+    pub invert: bool,
+}
+
+/// `VertexBuffers<Point, I>` behind one interface for every `I`
+pub trait AnyBuffers {
+    fn ty(&self) -> &'static str;
+    /// `<I as MaxIndex>::MAX`
+    fn max_index(&self) -> u64;
+    fn nv(&self) -> usize;
+    fn ni(&self) -> usize;
+    fn vertices(&self) -> &[Point];
+    /// i-th stored index, as the buffer stores it
+    fn index(&self, i: usize) -> i128;
+    fn push_vertex(&mut self, p: Point);
+    /// append an index the way lyon would (`I::from(VertexId(v))`)
+    fn push_index(&mut self, v: u32);
+    fn clone_box(&self) -> Box<dyn AnyBuffers>;
+    /// bit-exact equality of the first `nv` vertices and `ni` indices with `other`'s whole contents
+    fn has_prefix(&self, other: &dyn AnyBuffers) -> bool {
+        other.nv() <= self.nv()
+            && other.ni() <= self.ni()
+            && self.vertices()[..other.nv()].iter().zip(other.vertices()).all(|(a, b)| a.x.to_bits() == b.x.to_bits() && a.y.to_bits() == b.y.to_bits())
+            && (0..other.ni()).all(|i| self.index(i) == other.index(i))
+    }
+    /// hand a builder over these buffers to `f`
+    fn with_builder(&mut self, bc: BuilderCfg, f: &mut dyn FnMut(&mut dyn FillGeometryBuilder));
+}
+
+impl<I: BufIdx> AnyBuffers for VertexBuffers<Point, I> {
+    fn ty(&self) -> &'static str {
+        I::NAME
+    }
+    fn max_index(&self) -> u64 {
+        <I as MaxIndex>::MAX as u64
+    }
+    fn nv(&self) -> usize {
+        self.vertices.len()
+    }
+    fn ni(&self) -> usize {
+        self.indices.len()
+    }
+    fn vertices(&self) -> &[Point] {
+        &self.vertices
+    }
+    fn index(&self, i: usize) -> i128 {
+        self.indices[i].val()
+    }
+    fn push_vertex(&mut self, p: Point) {
+        self.vertices.push(p)
+    }
+    fn push_index(&mut self, v: u32) {
+        self.indices.push(I::from(VertexId(v)))
+    }
+    fn clone_box(&self) -> Box<dyn AnyBuffers> {
+        Box::new(VertexBuffers::<Point, I> { vertices: self.vertices.clone(), indices: self.indices.clone() })
+    }
+    fn with_builder(&mut self, bc: BuilderCfg, f: &mut dyn FnMut(&mut dyn FillGeometryBuilder)) {
+        let bb = if bc.simple { I::simple(self) } else { None };
+        let bb = match bb {
+            Some(b) => b,
+            None => BuffersBuilder::new(self, Positions),
+        };
+        let bb = if bc.offset != 0 { bb.with_vertex_offset(bc.offset) } else { bb };
+        if bc.invert {
+            let mut b = bb.with_inverted_winding();
+            f(&mut b)
+        } else {
+            let mut b = bb;
+            f(&mut b)
+        }
+    }
+}
+
+pub fn new_buffers(ty: &str) -> Box<dyn AnyBuffers> {
+    match ty {
+        "u16" => Box::new(VertexBuffers::<Point, u16>::with_capacity(16, 16)),
+        "u32" => Box::new(VertexBuffers::<Point, u32>::with_capacity(16, 16)),
+        "i32" => Box::new(VertexBuffers::<Point, i32>::with_capacity(16, 16)),
+        _ => Box::new(VertexBuffers::<Point, usize>::with_capacity(16, 16)),
+    }
+}
+
+/// position of the i-th dummy vertex of a prefilled buffer: scattered over the region the generated
+/// polygons live in, so that an index resolving to a dummy vertex gives a visibly wrong triangle
+pub fn dummy_vertex(i: usize) -> Point {
+    point((i * 7 % 23) as f32 - 11.0, (i * 13 % 19) as f32 - 9.0)
+}
+
+/// Output buffers and their history BEFORE the fill under test.
+#[derive(Clone, Debug)]
+pub struct BufSpec {
+    pub ty: &'static str,
+    /// dummy vertices the buffers start with
+    pub n0: usize,
+    /// dummy index triples (each index < n0) the buffers start with
+    pub idx0: Vec<u32>,
+    pub bc: BuilderCfg,
+    /// fills appended to the same buffers before the one under test: polygon, configuration,
+    /// vertex position at which the builder refuses (0 = never)
+    pub earlier: Vec<(Poly, FillCfg, usize)>,
+    /// one builder object serves the earlier fills and the fill under test
+    pub reuse_builder: bool,
+    pub band: &'static str,
+}
+
+impl BufSpec {
+    /// `real_history`: also draw earlier real fills / builder reuse (the tie family keeps to dummy contents)
+    pub fn gen(rng: &mut Rng, real_history: bool) -> BufSpec {
+        let ty = *rng.pick(&["u16", "u16", "u16", "u32", "u32", "i32", "usize"]);
+        let max: u64 = match ty { "u16" => 65535, "i32" => i32::MAX as u64, _ => u32::MAX as u64 };
+        // prior vertex count: empty, small, anywhere, and around the first wrap point of a 16-bit
+        // index (for u16: just below MaxIndex::MAX, so that the fill ends at, or would pass, the limit)
+        let (n0, band) = match rng.below(8) {
+            0 => (0usize, "empty"),
+            1 | 2 => (rng.range(1, 400) as usize, "small"),
+            3 => (rng.range(400, 65000) as usize, "mid"),
+            _ => {
+                if ty == "u16" {
+                    ((65535 - rng.below(70)) as usize, "near-max")
+                } else if rng.chance(3, 4) {
+                    ((65536 + 40 - rng.below(120) as i64) as usize, "near-2^16")
+                } else {
+                    (rng.range(65600, 140000) as usize, "beyond-2^16")
+                }
+            }
+        };
+        let n_tri = if n0 == 0 { 0 } else { rng.below(4) as usize };
+        let idx0 = (0..3 * n_tri).map(|_| rng.below(n0 as u64) as u32).collect();
+        let room = max.saturating_sub(n0 as u64 + 400);
+        let offset = if room > 0 && rng.chance(1, 4) {
+            let cap = if rng.chance(1, 2) { 9 } else { 5000 };
+            1 + rng.below(room.min(cap)) as u32
+        } else {
+            0
+        };
+        let simple = ty == "u16" && offset == 0 && rng.chance(1, 3);
+        let invert = rng.chance(1, 5);
+        let mut earlier = Vec::new();
+        let mut reuse_builder = false;
+        if real_history && rng.chance(1, 2) {
+            for _ in 0..rng.range(1, 3) {
+                let poly = gen_poly(rng, 12);
+                let cfg = FillCfg::gen(rng);
+                let k = if rng.chance(1, 4) { rng.range(2, 10) as usize } else { 0 };
+                earlier.push((poly, cfg, k));
+            }
+            reuse_builder = rng.chance(1, 2);
+        }
+        BufSpec { ty, n0, idx0, bc: BuilderCfg { simple, offset, invert }, earlier, reuse_builder, band }
+    }
+    pub fn put(&self, o: &mut Out) {
+        o.t(self.ty).u(self.n0 as u64).u(self.idx0.len() as u64).u(self.bc.offset as u64).b(self.bc.invert).b(self.bc.simple);
+        o.u(self.earlier.len() as u64).b(self.reuse_builder);
+    }
+    pub fn tag(&self) -> String {
+        format!(
+            "{} {}{}{}{}{}",
+            self.ty,
+            self.band,
+            if self.bc.offset > 0 { " offset" } else { "" },
+            if self.bc.invert { " invert" } else { "" },
+            if self.bc.simple { " simple_builder" } else { "" },
+            if self.earlier.is_empty() { "" } else if self.reuse_builder { " earlier-fills(one-builder)" } else { " earlier-fills" }
+        )
+    }
+    /// the buffers with their dummy contents
+    pub fn prefill(&self) -> Box<dyn AnyBuffers> {
+        let mut b = new_buffers(self.ty);
+        for i in 0..self.n0 {
+            b.push_vertex(dummy_vertex(i));
+        }
+        for &i in &self.idx0 {
+            b.push_index(i);
+        }
+        b
+    }
+}
+
+/// Result of `fill_into_buffers`: the buffers as they were when the fill under test began
+/// (`before`), as it left them (`after`), and what it returned.
+pub struct BufRun {
+    pub before: Box<dyn AnyBuffers>,
+    pub after: Box<dyn AnyBuffers>,
+    pub result: Result<(), lyon_tessellation::TessellationError>,
+}
+
+/// Prefill, replay the earlier fills into the same buffers, then run the fill under test.
+/// `mk_tess` yields the tessellator object (called twice when one builder object serves all
+/// fills: the state at the start of the fill under test is then obtained from a separate,
+/// identical replay of the earlier fills - lyon is deterministic).
+pub fn fill_into_buffers(spec: &BufSpec, mk_tess: &dyn Fn() -> FillTessellator, poly: &Poly, cfg: &FillCfg) -> BufRun {
+    let mut buf = spec.prefill();
+    let run_earlier = |tess: &mut FillTessellator, bb: &mut dyn FillGeometryBuilder| {
+        for (p, c, k) in &spec.earlier {
+            let mut r = RefuseDyn { inner: &mut *bb, k: *k, seen: 0 };
+            let _ = run_fill_dyn(tess, p, c, &mut r);
+        }
+    };
+    let mut result = Ok(());
+    let before;
+    if spec.reuse_builder {
+        let mut b1 = buf.clone_box();
+        let mut t1 = mk_tess();
+        b1.with_builder(spec.bc, &mut |bb| run_earlier(&mut t1, bb));
+        before = b1;
+        let mut tess = mk_tess();
+        buf.with_builder(spec.bc, &mut |bb| {
+            run_earlier(&mut tess, bb);
+            result = run_fill_dyn(&mut tess, poly, cfg, bb);
+        });
+    } else {
+        let mut tess = mk_tess();
+        for (p, c, k) in &spec.earlier {
+            buf.with_builder(spec.bc, &mut |bb| {
+                let mut r = RefuseDyn { inner: &mut *bb, k: *k, seen: 0 };
+                let _ = run_fill_dyn(&mut tess, p, c, &mut r);
+            });
+        }
+        before = buf.clone_box();
+        buf.with_builder(spec.bc, &mut |bb| {
+            result = run_fill_dyn(&mut tess, poly, cfg, bb);
+        });
+    }
+    BufRun { before, after: buf, result }
+}
